@@ -356,7 +356,18 @@ class Behavior(_IModel):
         relaxes and moves time on — calling it to *read* a stress would step a
         rate-dependent material forward again.
         """
-        eps6_e_pg = self.Compute_strain_6d(eps_e_pg, z_e_pg, 0.0)
+        if self.dim == 2 and self.planeStress:
+            # the state is read, not advanced: the stress is then affine in eps_zz and one step
+            # cancels sig_zz (Compute_strain_6d would integrate the flow, with dt = 0 here, which a
+            # rate law cannot do)
+            eps_e_pg = FeArray.asfearray(eps_e_pg)
+            Ne, nPg = eps_e_pg.shape[:2]
+            eps6_e_pg = FeArray.zeros(Ne, nPg, 6, dtype=float)
+            eps6_e_pg[..., IDX_2D] = eps_e_pg
+            sig6_e_pg = self.Compute_sigma(eps6_e_pg, z_e_pg)
+            eps6_e_pg[..., ZZ] = -sig6_e_pg[..., ZZ] / self._C_e_pg(Ne, nPg)[..., ZZ, ZZ]
+        else:
+            eps6_e_pg = self.Compute_strain_6d(eps_e_pg, z_e_pg, 0.0)
         sig6_e_pg = self.Compute_sigma(eps6_e_pg, z_e_pg)
         if self.dim == 3:
             return sig6_e_pg
